@@ -30,7 +30,8 @@ FBC = "TidalPy/RadialSolver/boundaries/boundaries.pyx"
 FCL = "TidalPy/RadialSolver/collapse/collapse.pyx"
 FLV = "TidalPy/RadialSolver/love.pyx"
 FSN = "TidalPy/RadialSolver/solutions.pyx"
-INLINED = ((FND, ("cf_non_dimensionalize_physicals", "cf_redimensionalize_physicals", "cf_redimensionalize_radial_functions")),
+FDRV = "TidalPy/RadialSolver/starting/driver.pyx"
+INLINED = ((FDRV, ("cf_find_starting_conditions",)), (FND, ("cf_non_dimensionalize_physicals", "cf_redimensionalize_physicals", "cf_redimensionalize_radial_functions")),
            (FIF, ("cf_solve_upper_y_at_interface",)), (FRV, ("cf_top_to_bottom_interface_bc",)), (FBC, ("cf_apply_surface_bc",)),
            (FCL, ("cf_collapse_layer_solution",)), (FLV, ("find_love_cf",)), (FSN, ("cf_find_num_solutions",)))
 NANC = sp.Symbol("NAN_", real=True)          # NaN sentinel (an ordinary symbol: a read of an unset entry shows up in the result)
@@ -333,9 +334,24 @@ class State:
             ex.facts.append(sp.Eq(tot.im, bvec[i].im))
             b_ptr.set(i, cvec[i])
 
+    def start_stub(self, nsol, ny):
+        """contract of one starting-vector function (C04's subject): writes nsol opaque vectors of ny components with the stride it is given"""
+        def stub(ex, node, *a):
+            num_ys, y_ptr = a[-2], a[-1]
+            stride = ci(num_ys)
+            sc = self.cfg["start_contract"]
+            for j in range(nsol):
+                for i in range(ny):
+                    v = sc(j, i) if sc else (sp.Symbol(f"START_{j}_{i}") if self.cfg.get("analytic") else Cx(sp.Symbol(f"START_{j}_{i}_re", real=True), sp.Symbol(f"START_{j}_{i}_im", real=True)))
+                    y_ptr.set(j * stride + i, v)
+        return stub
+
     def find_start(self, ex, node, layer_type, is_static, is_incomp, use_kamata_, frequency_, radius_, density_, bulk_, shear_, degree_l, G_, num_ys, y_ptr, run_checks=True):
         self.start_calls.append(dict(type=layer_type, static=is_static, incomp=is_incomp, kamata=use_kamata_, frequency=frequency_, radius=radius_, density=density_,
                                      bulk=bulk_, shear=shear_, G=G_, num_ys=num_ys, degree=degree_l))
+        if self.cfg.get("real_driver", True) and not self.cfg.get("start_raises"):
+            # the REAL dispatch of starting/driver.pyx decides which start function runs - and which combinations raise
+            return ex.call_inline("cf_find_starting_conditions", [layer_type, is_static, is_incomp, use_kamata_, frequency_, radius_, density_, bulk_, shear_, degree_l, G_, num_ys, y_ptr, run_checks], {}, node)
         if self.cfg.get("start_raises"):
             from tpv.symex import _Raise, Raised
             raise _Raise(Raised("NotImplementedError", ("injected: starting conditions not implemented for this combination",)))
@@ -373,6 +389,9 @@ class State:
                     G=Gsym, sqrt=_sh_sqrt, isnan=lambda ex, node, x: False, cf_build_solver=self.build_solver, cf_find_starting_conditions=self.find_start, zgesv=self.zgesv,
                     RadialSolverSolution=self.make_solution, cf_build_dblcmplx=lambda ex, node, a, b_: Cx(a, b_), cmplx_NAN=Cx(NANC, NANC), cmplx_zero=Cx(0, 0),
                     MAX_NUM_Y=sp.Integer(6), MAX_NUM_Y_REAL=sp.Integer(12), cf_collapse_layer_solution=self.obs_collapse, cf_apply_surface_bc=self.obs_surface,
+                    cf_kamata_solid_dynamic_compressible=self.start_stub(3, 6), cf_kamata_solid_static_compressible=self.start_stub(3, 6), cf_kamata_solid_dynamic_incompressible=self.start_stub(3, 6),
+                    cf_kamata_liquid_dynamic_compressible=self.start_stub(2, 4), cf_kamata_liquid_dynamic_incompressible=self.start_stub(2, 4), cf_takeuchi_solid_dynamic_compressible=self.start_stub(3, 6),
+                    cf_takeuchi_solid_static_compressible=self.start_stub(3, 6), cf_takeuchi_liquid_dynamic_compressible=self.start_stub(2, 4), cf_saito_liquid_static_inccompressible=self.start_stub(1, 2),
                     log=Namespace("log", dict(error=lambda ex_, node, *a, **k: None, warning=lambda ex_, node, *a, **k: None)), fabs=lambda ex_, node, x: sp.Abs(x))
 
     def args(self):
@@ -397,7 +416,7 @@ class State:
 
 def run_solver(b, stack, solve_for=("tidal",), nondim=True, slices_per_layer=4, fail_layer=None, zgesv_info=0, raise_on_fail=False, use_kamata=True,
                degree=None, extra_pre=(), start_contract=None, sol_contract=None, upper_radius_bad=False, entry="cf", total_override=None,
-               layer_type_names=None, integration_method="RK45", mismatch=None, start_raises=False, analytic=False, input_scale=None, relative_to=None):
+               layer_type_names=None, integration_method="RK45", mismatch=None, start_raises=False, analytic=False, input_scale=None, relative_to=None, real_driver=True):
     """analytic=True: complex quantities (moduli, starting vectors, integrated solutions, zgesv constants) are single complex atoms instead of (re, im)
     pairs; sound for the repository code executed here because it is complex-analytic in them (its only .real/.imag sites split a value and
     recombine it unchanged - those sites are covered by the pair mode).
@@ -413,7 +432,7 @@ def run_solver(b, stack, solve_for=("tidal",), nondim=True, slices_per_layer=4, 
     cfg = dict(stack=list(stack), nl=nl, ns=ns, total=total, Rp=Rp, rho_b=sp.Symbol("rho_bulk", positive=True), freq=sp.Symbol("frequency", positive=True),
                l=degree if degree is not None else R("l"), frac=frac, upper=upper, kinds=[LAYER_KINDS[k] for k in stack], solve_for=solve_for, nondim=nondim,
                fail_layer=fail_layer, zgesv_info=zgesv_info, raise_on_fail=raise_on_fail, use_kamata=use_kamata, start_contract=start_contract, sol_contract=sol_contract,
-               entry=entry, analytic=analytic, input_scale=input_scale, relative_to=relative_to, start_raises=start_raises, layer_type_names=layer_type_names, integration_method=integration_method, mismatch=mismatch)
+               entry=entry, analytic=analytic, input_scale=input_scale, relative_to=relative_to, real_driver=real_driver, start_raises=start_raises, layer_type_names=layer_type_names, integration_method=integration_method, mismatch=mismatch)
     inline = {}
     for rel, names in INLINED:
         for nm in names:
